@@ -15,6 +15,7 @@ import Pyunicorn.Lemmas.NsiWrapped
 import Pyunicorn.Lemmas.NsiBetwTargets
 import Pyunicorn.Lemmas.NsiWrappedArenas
 import Pyunicorn.Lemmas.NsiGJ
+import Pyunicorn.Lemmas.NsiGJ2
 import Pyunicorn.Model.NsiMeasures
 /-!
 # C02 — Node-splitting invariance of all n.s.i. measures
@@ -1299,6 +1300,83 @@ example :
       some (4/3, 4/3) ∧
     (newmanT path5).isSome = true ∧ (newmanT (split path5 2 (1/4))).isSome = true := by
   decide +kernel
+
+/-! ### Round 5f: C18's Gauss–Jordan is complete — the wrapper fails exactly on singular reduced `sp_M` -/
+
+/-- **completeness of C18's Gauss–Jordan elimination** (the other half of
+`circuit_inverse_two_sided`): `Circuit.inverse n A = none` exactly when `A` has a non-zero kernel
+vector on the leading `n × n` block (for every rational matrix `A` and every `n`) -/
+theorem circuit_inverse_none_iff (n : Nat) (A : Nat → Nat → Rat) :
+    Circuit.inverse n A = none ↔
+      ∃ v : Nat → Rat, (∃ l, l < n ∧ v l ≠ 0) ∧
+        ∀ k, k < n → sumR n (fun l => A k l * v l) = 0 :=
+  inverse_none_iff n A
+
+/-- … equivalently, it returns a matrix exactly when the leading block is regular
+(`SingularBlock n A` is the right-hand side of `circuit_inverse_none_iff`) -/
+theorem circuit_inverse_some_iff_regular (n : Nat) (A : Nat → Nat → Rat) :
+    (Circuit.inverse n A).isSome = true ↔ ¬ SingularBlock n A :=
+  inverse_isSome_iff n A
+
+/-- the model of `nsi_newman_betweenness` on a connected network (`newmanAll`, and `newmanT`, the
+model of `sp_M_inv`) is `none` exactly when the reduced `sp_M` (`sp_M[:-1,:-1]`) is singular -/
+theorem newman_all_none_iff_singular (H : Gr) (ends : Bool) :
+    (newmanAll H ends = none ↔ SingularBlock (H.n - 1) (newmanM H)) ∧
+    (newmanT H = none ↔ SingularBlock (H.n - 1) (newmanM H)) :=
+  ⟨newmanAll_none_iff H ends, newmanT_none_iff H⟩
+
+/-- **the modelled wrapper of `nsi_newman_betweenness` fails on a component with at least two
+nodes exactly when its grounded (reduced) `sp_M` is singular**: `newmanWrapped G ends = none` iff
+some component `c` of `G` with `2 ≤ |c|` has a non-zero kernel vector of `sp_M[:-1,:-1]` of its
+sub-network; and node by node (`perNode`, what the loop stores at `a`,
+`perComponent_eq_perNode`).  No hypothesis on `G`.  (Still open: that this never happens for
+positive weights — regularity of the reduced Laplacian-type matrix of a connected network.) -/
+theorem newman_wrapped_none_iff_singular (G : Gr) (ends : Bool) :
+    (newmanWrapped G ends = none ↔
+      ∃ c ∈ compList G, 2 ≤ c.length ∧
+        SingularBlock ((subGr G c).n - 1) (newmanM (subGr G c))) ∧
+    (∀ a, perNode G (newmanSingle G ends) (newmanCompF ends) a = none ↔
+      2 ≤ (compNodes G a).length ∧
+        SingularBlock ((subGr G (compNodes G a)).n - 1) (newmanM (subGr G (compNodes G a)))) :=
+  ⟨newmanWrapped_none_iff G ends, perNode_newman_none_iff G ends⟩
+
+/-- non-vacuity (`circuit_inverse_none_iff`): both sides occur — the all-ones 2 × 2 matrix has the
+explicit kernel vector `(1, -1)` and the elimination returns `none` on it; the 3 × 3 matrix of the
+round-5e example (zero first pivot) is regular and the elimination returns -/
+example :
+    (Circuit.inverse 2 (fun _ _ => (1 : Rat))).isNone = true ∧
+    SingularBlock 2 (fun _ _ => (1 : Rat)) ∧
+    ¬ SingularBlock 3 (fun i j => ([[0, 2, 1], [1, 1, 0], [3, 0, 1]].getD i []).getD j (0 : Rat)) := by
+  refine ⟨by decide +kernel, ⟨fun l => if l = 0 then 1 else -1, ⟨0, by decide, by decide⟩, ?_⟩,
+    (circuit_inverse_some_iff_regular _ _).mp (by decide +kernel)⟩
+  intro k _
+  show sumR 2 (fun l => (1 : Rat) * (if l = 0 then 1 else -1)) = 0
+  decide +kernel
+
+/-- two linked nodes of weight zero: outside the property's domain (weights must be positive), the
+only kind of input on which the reduced `sp_M` can be singular -/
+def zeroWG : Gr :=
+  { n := 2, adj := fun i j => (i, j) ∈ [(0, 1), (1, 0)],
+    w := fun _ => 0, la := fun _ _ _ => 0, grp := fun _ _ => false, dist := fun _ _ => none }
+
+/-- non-vacuity (`newman_wrapped_none_iff_singular`): the wrapper fails on `zeroWG` (so its one
+component has a singular reduced `sp_M`), and returns on `compG` and `path5` (so no component of
+those has one) -/
+example :
+    (newmanWrapped zeroWG true).isNone = true ∧
+    (∃ c ∈ compList zeroWG, 2 ≤ c.length ∧
+      SingularBlock ((subGr zeroWG c).n - 1) (newmanM (subGr zeroWG c))) ∧
+    (¬ ∃ c ∈ compList compG, 2 ≤ c.length ∧
+      SingularBlock ((subGr compG c).n - 1) (newmanM (subGr compG c))) ∧
+    (¬ ∃ c ∈ compList path5, 2 ≤ c.length ∧
+      SingularBlock ((subGr path5 c).n - 1) (newmanM (subGr path5 c))) := by
+  have h0 : (newmanWrapped zeroWG true).isNone = true := by decide +kernel
+  have h1 : (newmanWrapped compG true).isSome = true := by decide +kernel
+  have h2 : (newmanWrapped path5 true).isSome = true := by decide +kernel
+  refine ⟨h0, (newman_wrapped_none_iff_singular zeroWG true).1.mp (Option.isNone_iff_eq_none.mp h0),
+    fun h => ?_, fun h => ?_⟩
+  · rw [(newman_wrapped_none_iff_singular compG true).1.mpr h] at h1; cases h1
+  · rw [(newman_wrapped_none_iff_singular path5 true).1.mpr h] at h2; cases h2
 
 /-- **Node-splitting invariance of `arenasWrapped` itself** (`nsi_arenas_betweenness` through the
 component loop, all four argument patterns `stopping_mode` × `exclude_neighbors`, computed with the
